@@ -2339,3 +2339,47 @@ Proof.
   split; [vm_compute; reflexivity|].
   split; vm_compute; reflexivity.
 Qed.
+
+(* a heading, then a table cell with a comment range: same shape, same range keys, but the
+   run offsets of the range differ (the heading's tags are run strings of their own) -
+   this is why Rst relates only the keys of c_ranges *)
+Definition ex_tree2 : anode :=
+  el "body" [
+    el "p" [ el "pPr" [ elv "pStyle" "Heading2" ]; el "r" [ txt "t" ] ];
+    el "tbl" [ el "tr" [ el "tc" [
+      el "p" [ ela "commentRangeStart" [((Some W, s_id), s2l "7"%string)] [];
+               el "r" [ el "rPr" [ el "b" [] ]; txt "c" ];
+               ela "commentRangeEnd" [((Some W, s_id), s2l "7"%string)] [] ] ] ] ] ].
+
+Example ex_ranges_differ :
+  exists s sp,
+    collect_from ex_env [] ex_tree2 = Ok s /\
+    collect_from (plain_env ex_env) [] ex_tree2 = Ok sp /\
+    c_ranges s = [(s2l "7"%string, (3, 4))%nat] /\
+    c_ranges sp = [(s2l "7"%string, (1, 2))%nat] /\
+    map shape_of (c_tree s) = [SL [SL [SL [SP]]]; SL [SL [SL [SP]]]].
+Proof.
+  eexists. eexists. split; [vm_compute; reflexivity|].
+  split; [vm_compute; reflexivity|].
+  repeat split; vm_compute; reflexivity.
+Qed.
+
+Print Assumptions styles_ok_table.
+Print Assumptions styles_ok_plain.
+Print Assumptions balanced_wb.
+Print Assumptions walk_s.
+Print Assumptions walk_sim.
+Print Assumptions walk_projects.
+Print Assumptions finish_projects.
+Print Assumptions collect_projects.
+Print Assumptions projection_paragraphs.
+Print Assumptions projection_shape.
+Print Assumptions plain_succeeds.
+Print Assumptions erase_plain_fixed.
+Print Assumptions erase_idem.
+Print Assumptions styles_words_ok_counterexample.
+Print Assumptions styles_words_ok_refuted.
+Print Assumptions styles_words_ok_partial.
+Print Assumptions ex_styles_ok.
+Print Assumptions ex_projection.
+Print Assumptions ex_ranges_differ.
